@@ -562,6 +562,11 @@ class _MType:
     def __repr__(self):
         return "M"
 
+    def __reduce__(self):
+        # M is compared by identity (``lhs is M``): copies and unpickled
+        # objects must be M itself, not a second _MType instance
+        return 'M'
+
     def glomit(self, target, spec):
         if target:
             return target
